@@ -479,9 +479,19 @@ func exec(t []string) string {
 		setArbiters(arbs, nil)
 		blockchain.DefaultLedger = &blockchain.Ledger{Arbitrators: arbiters}
 		d := manager.NewVerifDispatcher(arbiters)
+		via := "d" // d = ProcessVote directly, n / o = through the normal / on-duty message handler
+		if len(t) > 3 {
+			via = t[3]
+		}
 		view := 0
 		seen := map[int]int{}
 		var parts []string
+		curProp := func() *payload.DPOSProposal {
+			return &payload.DPOSProposal{Sponsor: pubOf(arbs[0].key), BlockHash: common.Uint256{7, 7, 7}, ViewOffset: uint32(view)}
+		}
+		if via != "d" {
+			d.SetProposal(curProp())
+		}
 		for i, it := range items {
 			if it == "v" || it == "h" {
 				if it == "v" {
@@ -490,13 +500,15 @@ func exec(t []string) string {
 					d.FinishHeight()
 				}
 				view++
+				if via != "d" {
+					d.SetProposal(curProp())
+				}
 				parts = append(parts, fmt.Sprintf("-:%d", d.AcceptCount()))
 				continue
 			}
 			v := parseVotes(it)[0]
 			// the proposal of the current view (one proposal per view; the sponsor does not matter here)
-			prop := payload.DPOSProposal{Sponsor: pubOf(arbs[0].key), BlockHash: common.Uint256{7, 7, 7}, ViewOffset: uint32(view)}
-			ph := prop.Hash()
+			ph := curProp().Hash()
 			if !v.hashOk {
 				ph[0] ^= 0xff
 			}
@@ -506,7 +518,17 @@ func exec(t []string) string {
 			}
 			pv.Sign = sigFor(v.signer, pv.Data(), v.sigOk, i, seen[v.signer])
 			seen[v.signer]++
-			succeed, _, maj := d.ProcessVote(&pv, true)
+			var succeed, maj bool
+			switch via {
+			case "d":
+				succeed, _, maj = d.ProcessVote(&pv, true)
+			case "n":
+				succeed, _, maj = d.HandleAcceptVote(&pv, false)
+			case "o":
+				succeed, _, maj = d.HandleAcceptVote(&pv, true)
+			default:
+				panic("harness: bad via " + via)
+			}
 			parts = append(parts, fmt.Sprintf("%s%s:%d", b2s(succeed), b2s(maj), d.AcceptCount()))
 		}
 		return strings.Join(parts, " ")
@@ -811,9 +833,22 @@ func genDisp(g *hx.Gen) {
 	if len(sc.votes) == 0 {
 		sc.votes = []vote{{sc.arbs[0].key, true, true, true}}
 	}
-	if g.R.Chance(70) { // what the handlers forward: votes naming the processing proposal
+	if g.R.Chance(50) { // only votes naming the processing proposal
 		for i := range sc.votes {
 			sc.votes[i].hashOk = true
+		}
+	} else if g.R.Chance(50) { // the same arbiters also vote for another proposal (equivocating sponsor)
+		n0 := len(sc.votes)
+		for i := 0; i < n0; i++ {
+			if g.R.Chance(60) {
+				v := sc.votes[i]
+				v.hashOk = !v.hashOk
+				sc.votes = append(sc.votes, v)
+			}
+		}
+		for i := len(sc.votes) - 1; i > 0; i-- {
+			j := g.R.Intn(i + 1)
+			sc.votes[i], sc.votes[j] = sc.votes[j], sc.votes[i]
 		}
 	}
 	as := make([]string, len(sc.arbs))
@@ -835,7 +870,14 @@ func genDisp(g *hx.Gen) {
 		}
 		items = append(append(append([]string{}, items[:cut]...), mark), second...)
 	}
-	g.Emit("disp %s %s", strings.Join(as, ","), strings.Join(items, ","))
+	switch g.R.Intn(3) {
+	case 0:
+		g.Emit("disp %s %s", strings.Join(as, ","), strings.Join(items, ","))
+	case 1:
+		g.Emit("disp %s %s n", strings.Join(as, ","), strings.Join(items, ","))
+	default:
+		g.Emit("disp %s %s o", strings.Join(as, ","), strings.Join(items, ","))
+	}
 }
 
 func gen(g *hx.Gen) {
@@ -919,7 +961,14 @@ func oracle(t []string, out string) *hx.Violation {
 			}
 			v := parseVotes(items[i])[0]
 			if !v.hashOk {
-				return nil // a vote for another proposal: outside the handlers' precondition
+				if len(t) > 3 && t[3] != "d" {
+					// through the message handlers a vote for another proposal must never be collected
+					if o[0] == '1' {
+						return &hx.Violation{Kind: "handler-forwarded-foreign-vote", Detail: fmt.Sprintf("vote %d of signer %d names another proposal but was collected for the processing one", i, v.signer)}
+					}
+					continue
+				}
+				return nil // ProcessVote called directly with a vote for another proposal: outside its precondition
 			}
 			if o[0] == '1' && !(v.accept && v.sigOk && normal[v.signer]) {
 				return &hx.Violation{Kind: "dispatcher-counted-bad-vote", Detail: fmt.Sprintf("vote %d of signer %d was collected although it is not a valid accepting vote of a normal arbiter", i, v.signer)}
